@@ -389,6 +389,12 @@ def extract(survey) -> dict:
                 d["hasChoices"] = e.choices is not None
                 if e.choices is not None and e.choices.name != e.list_name:
                     raise Unsupported("select whose Itemset is not its list_name")
+            if cls == "OsmUploadQuestion":
+                d["tags"] = []
+                for t in e.children or ():
+                    if getattr(t, "media", None):
+                        raise Unsupported("osm tag with media")
+                    d["tags"].append([t.name, txt_json(t.label)])
             if isinstance(e, Section):
                 d["kids"] = [elem(c) for c in e.children]
         return d
